@@ -23,7 +23,7 @@ func specExpandBackrefs(input string, groups []string) (string, bool) {
 			ok = false
 			return s
 		}
-		return m[1][:len(m[1])-1] + regexp.QuoteMeta(groups[n])
+		return m[1][:len(m[1])-1] + "(?:" + regexp.QuoteMeta(groups[n]) + ")"
 	})
 	return out, ok
 }
@@ -382,6 +382,25 @@ func TestVerif_C03_BackrefLiteral(t *testing.T) {
 		}
 		if m := re.FindString(g + "zz"); m != g {
 			res.violate("BackrefRegex(`\\1`, group %q) matches %q of %q; a back-reference matches the text of the group literally", g, m, g+"zz")
+		}
+	}
+	// a quantifier after a back-reference applies to the whole text of the group
+	for _, g := range []string{"ab", "a", "", "a.b", "é"} {
+		res.Evaluations++
+		res.Distinct++
+		re, err := BackrefRegex(&sync.Map{}, `\1+;`, []string{"whole", g})
+		if g == "" {
+			continue // a repetition of nothing: whether it compiles is the regexp package's business
+		}
+		if err != nil {
+			res.violate("BackrefRegex(`\\1+;`, group %q) fails: %v", g, err)
+			continue
+		}
+		if m := re.FindString(g + g + g + ";x"); m != g+g+g+";" {
+			res.violate("BackrefRegex(`\\1+;`, group %q) matches %q of %q; the repetition applies to the whole group text", g, m, g+g+g+";x")
+		}
+		if m := re.FindString(g + g[len(g)-1:] + ";"); len(g) > 1 && m != "" {
+			res.violate("BackrefRegex(`\\1+;`, group %q) matches %q, a repetition of the last character only", g, m)
 		}
 	}
 	res.emit(t)
